@@ -269,6 +269,15 @@ void cmb_timeseries_histogram_print(const struct cmb_timeseries *tsp,
         /* Autoscale to dataset range */
         low_lim = dsp->min;
         high_lim = dsp->max;
+        if (!(high_lim > low_lim)) {
+            /* All samples equal: one bin of unit width, not a bin width of
+             * zero (0/0 when the samples are distributed to the bins) */
+            high_lim = low_lim + 1.0;
+            if (!(high_lim > low_lim)) {
+                /* ... or the narrowest there is, for values beyond 2^53 */
+                high_lim = nextafter(low_lim, INFINITY);
+            }
+        }
     }
 
     /* Compared as doubles: the range of e.g. an unlimited buffer does not fit
